@@ -55,7 +55,7 @@ func init() {
 			mods = []string{"Verif.Properties.C03", "Verif.Properties.C03Phases"}
 			factsOK = true
 		case "C04":
-			mods = []string{"Verif.Properties.C01", "Verif.Properties.C02", "Verif.Properties.C03"}
+			mods = []string{"Verif.Properties.C04", "Verif.Properties.C01", "Verif.Properties.C02", "Verif.Properties.C03"}
 		case "C05":
 			mods = []string{"Verif.Properties.C01", "Verif.Properties.C02"}
 		case "C06":
